@@ -182,15 +182,16 @@ func Specs() map[string]*PropSpec {
 	}
 	sd := func(fn string, kv ...string) Inst { return Inst{Pkg: "x/evm/statedb", Fn: fn, Params: pm(kv...)} }
 	m["C05"] = &PropSpec{
-		ID: "C05", Pkgs: []string{"./x/evm/statedb"},
-		Quick: []Inst{sd("VerifC05_StateDB", "ops", "3", "kinds", "tsdf"), sd("VerifC05_StateDB", "ops", "4", "kinds", "sfc", "addrs", "2", "vals", "2"), sd("VerifC05_StateDB", "ops", "3", "kinds", "tfc", "amts", "1")},
+		ID: "C05", Pkgs: []string{"./x/evm/statedb", "./precompiles/staking"},
+		Quick: []Inst{sd("VerifC05_StateDB", "ops", "3", "kinds", "tsdf"), sd("VerifC05_StateDB", "ops", "4", "kinds", "sfc", "addrs", "2", "vals", "2"), sd("VerifC05_StateDB", "ops", "3", "kinds", "tfc", "amts", "1"),
+			{Pkg: "precompiles/staking", Fn: "VerifC05_PrecompileRevert", Params: pm(), EngineReplay: true}},
 		Thorough: []Inst{sd("VerifC05_StateDB", "ops", "3", "kinds", "tsdfc"), sd("VerifC05_StateDB", "ops", "4", "kinds", "sfc", "addrs", "2", "vals", "2"), sd("VerifC05_StateDB", "ops", "4", "kinds", "tfc", "amts", "1"),
-			sd("VerifC05_StateDB", "ops", "4", "kinds", "sdf", "addrs", "2", "vals", "2")},
+			sd("VerifC05_StateDB", "ops", "4", "kinds", "sdf", "addrs", "2", "vals", "2"), {Pkg: "precompiles/staking", Fn: "VerifC05_PrecompileRevert", Params: pm(), EngineReplay: true}},
 		Bounds: map[string]string{
-			"quick":    "every program of <= 3 state operations (value transfer, SSTORE, SELFDESTRUCT, nested call frame that returns or reverts, depth <= 2) over 3 accounts x 2 slots; plus the focused families of 4 operations {SSTORE, frame, mid-transaction Commit} over 2 accounts and 3 operations {transfer, frame, mid-transaction Commit}; all operand choices enumerated",
+			"quick":    "every program of <= 3 state operations (value transfer, SSTORE, SELFDESTRUCT, nested call frame that returns or reverts, depth <= 2) over 3 accounts x 2 slots; plus the focused families of 4 operations {SSTORE, frame, mid-transaction Commit} over 2 accounts and 3 operations {transfer, frame, mid-transaction Commit}; all operand choices enumerated; one inner frame that calls staking approve / revoke / delegate (real method bodies, symbolic amounts and pre-existing grant) and then reverts or returns, compared with the Cosmos-side state (grant store, bonded pool, delegator balance) before the frame",
 			"thorough": "all five operation kinds with 3 operations; the focused families with 4 operations",
 		},
-		Outside:     []string{"the Cosmos-side effects of precompile bodies (delegations, grants, escrow): need the precompile harness; recorded as an architectural finding in DESIGN.md", "gas, contract bytecode (the harness is the call tree)", "longer programs / deeper nesting than the bound"},
+		Outside:     []string{"Cosmos-side effects of the distribution and ICS-20 precompiles (same structure as the staking ones decided here: direct writes to the SDK context)", "gas, contract bytecode (the harness is the call tree)", "longer programs / deeper nesting than the bound"},
 		Assumptions: []string{"the frame protocol of go-ethereum's Call (Snapshot; transfer; body; RevertToSnapshot on failure) and of opSelfdestruct, restated in the harness", "ledger keeper = what x/evm keeper + bank record, with SetBalance's mint/burn delta", "all operands are concrete after the symbolic choice: exhaustive path enumeration over the bounded program space"},
 		Stubs:       []string{"sLedger (statedb.Keeper)"},
 	}
